@@ -63,7 +63,11 @@ def invocations(seed, n, pyver):
     # every single flag and the empty set on a fixed program, then random subsets x programs x source options
     for fl in [[]] + [[f] for f in FLAGS] + [["--dis", "--dis-after"], ["--json", "--no-normalize"], FLAGS]:
         out.append({"kind": "single", "via": "-c", "program": PROGRAMS[4], "flags": fl})
+    import base64
     import c16_programs
+    for k, raw in enumerate(c16_programs.RAW_FILES):
+        out.append({"kind": "single", "via": "rawfile", "raw": base64.b64encode(raw).decode("ascii"),
+                    "flags": [[], ["--source"], ["--json", "--dis", "--dis-after"]][k % 3]})
     for k, prog in enumerate(c16_programs.TEXT_HAZARDS):
         for via in ("-c", "file", "-e"):
             out.append({"kind": "single", "via": via, "program": prog, "flags": [["--json"], [], ["--no-normalize", "--json"]][(k + len(via)) % 3]})
@@ -197,6 +201,23 @@ def run(shard):
 
         via, flags = spec["via"], spec["flags"]
         program = spec.get("program")
+        raw = None
+        if via == "rawfile":
+            # a program file given as bytes: BOM, coding cookie, CRLF - whatever `python file.py` accepts
+            import base64
+            import tokenize
+            raw = base64.b64decode(spec["raw"])
+            try:
+                compile(raw, "<probe>", "exec")
+            except (SyntaxError, ValueError):
+                H.count("skipped:program_invalid")
+                continue
+            fileno[0] += 1
+            rawpath = os.path.join(tmpdir, "raw%d.py" % fileno[0])
+            with open(rawpath, "wb") as f:
+                f.write(raw)
+            with tokenize.open(rawpath) as f:
+                program = f.read()
         if via in ("-c", "-e") and program is not None and ("\\n" in program or "\r" in program):
             program = program.replace("\\n", " ").replace("\r", " ")
         if via in ("file", "-c", "-e"):
@@ -208,7 +229,10 @@ def run(shard):
             except (SyntaxError, ValueError, UnicodeEncodeError):
                 H.count("skipped:program_invalid")
                 continue
-        sa, filename = src_argv(via, program, spec.get("module"))
+        if via == "rawfile":
+            sa, filename = [rawpath], rawpath
+        else:
+            sa, filename = src_argv(via, program, spec.get("module"))
         argv = sa + flags
         spec["argv_show"] = [a if len(a) < 80 else a[:77] + "..." for a in argv]
         p = subprocess.run([sys.executable, "-c", launcher] + argv, env=env, stdout=subprocess.PIPE, stderr=subprocess.PIPE, timeout=300)
@@ -230,7 +254,7 @@ def run(shard):
             source = program
             with warnings.catch_warnings():
                 warnings.simplefilter("ignore")
-                code = compile(source, filename, "exec")
+                code = compile(raw if raw is not None else source, filename, "exec")
         data = CodeData.from_code(code)
         if "--no-normalize" not in flags:
             data = data.normalize()
